@@ -146,7 +146,7 @@ def destination_name_is_never_opened(ctx):
     x = ctx.expanded()
     f = x.func('download.DownloadFilenameOutputManager.get_fileobj_for_io_writes')
     cs = [c for c in own_calls(f.node) if (dotted(c.func) or '').endswith('_get_fileobj_from_filename')]
-    ctx.ob(f.qualname, '_get_fileobj_from_filename(self._temp_filename)', len(cs) == 1 and norm(cs[0].args[0]) == 'self._temp_filename', 'writes must go to the temporary file', node=f.node)
+    ctx.ob(f.qualname, '_get_fileobj_from_filename(self._temp_filename)', len(cs) == 1 and q.self_alias_text(f, cs[0].args[0]) == 'self._temp_filename', 'writes must go to the temporary file', node=f.node)
     f = ctx.func('processpool.GetObjectSubmitter._allocate_temp_file')
     cs = [c for c in own_calls(f.node) if (dotted(c.func) or '').endswith('.allocate')]
     ok = len(cs) == 1 and 'get_temp_filename(' in (q.ntext(f, cs[0].args[0]) or '') and q.returned_names(f) == [norm(cs[0].args[0])]
@@ -273,12 +273,12 @@ def cleanup_registered_with_the_temp_handle(ctx):
     openc = [c for c in own_calls(f.node) if (dotted(c.func) or '').endswith('_get_fileobj_from_filename')]
     opens = [x for c in openc for x in g.nodes_of(c)]
     rm = [c for c in own_calls(f.node) if (dotted(c.func) or '').endswith('add_failure_cleanup') and c.args and norm(c.args[0]).endswith('remove_file')]
-    ok = len(rm) == 1 and len(rm[0].args) == 2 and norm(rm[0].args[1]) == 'self._temp_filename' and not q.guards(rm[0])
+    ok = len(rm) == 1 and len(rm[0].args) == 2 and q.self_alias_text(f, rm[0].args[1]) == 'self._temp_filename' and not q.guards(rm[0])
     ctx.ob(f.qualname, 'add_failure_cleanup(self._osutil.remove_file, self._temp_filename)', ok and g.must_pass([g.entry], [x for c in rm for x in g.nodes_of(c)], [g.exit], g.NORMAL),
            'a failed or cancelled download would leave its temporary file behind', node=f.node)
     ctx.ob(f.qualname, 'close is registered before remove', bool(opens) and bool(rm) and g.all_dominate(opens, [x for c in rm for x in g.nodes_of(c)], g.NORMAL), 'cleanups run in registration order', node=f.node)
     # the handle that is opened is the one kept in self._temp_fileobj and returned
-    rets = [norm(x.value) for x in own_nodes(f.node) if isinstance(x, ast.Return)]
+    rets = [q.self_alias_text(f, x.value) for x in own_nodes(f.node) if isinstance(x, ast.Return)]
     st = [n for n in own_nodes(f.node) if isinstance(n, ast.Assign) and any(dotted(t) == 'self._temp_fileobj' for t in n.targets)]
     kept = len(st) == 1 and len(openc) == 1 and q.resolve_local(f, st[0].value) is openc[0]
     ctx.ob(f.qualname, 'returns self._temp_fileobj = the opened temp handle', rets == ['self._temp_fileobj'] and kept, f'returns {rets}', node=f.node)
@@ -374,9 +374,21 @@ def both_outcomes_handled(ctx):
         return q.guards_imply(gs, want)
     ok = len(rm) == 1 and len(rn) == 1 and _gi(rm[0], exc_test) and _gi(rn[0], f'not {exc_test}') and norm(rm[0].args[0]) == 'temp_filename'
     ctx.ob(f.qualname, 'exception => remove_file(temp) else rename', ok, 'finalisation must remove the temp file exactly when the download failed, otherwise publish it', node=f.node)
-    ndn = [x for c in nd for x in g.nodes_of(c)]
-    ctx.ob(f.qualname, 'notify_done(transfer_id) after publish/cleanup on every path', bool(ndn) and g.must_pass([g.entry], ndn, [g.exit], g.NORMAL)
-           and not (g.reach(ndn, labels=g.NORMAL) & set(x for c in rm_all + rn for x in g.nodes_of(c))), 'done must be signalled only after the file is in place or removed', node=f.node)
+    # done is signalled after the file is in place or removed, on every path of the finalisation - judged in the expanded worker loop
+    # (the signal may sit in the finaliser or right behind its call)
+    wf = xp.func('processpool.GetObjectWorker._do_run')
+    wg = xp.cfg(wf)
+    wnd = [x for c in own_calls(wf.node) if (dotted(c.func) or '').endswith('notify_done') for x in wg.nodes_of(c)]
+    wfile = [x for c in own_calls(wf.node) if (dotted(c.func) or '').endswith(('rename_file', 'remove_file')) for x in wg.nodes_of(c)]
+    heads = [x for x in wg.nodes if x.kind == 'while']
+    fin_ifs = [n for n in own_nodes(wf.node) if isinstance(n, ast.If) and any(isinstance(c, ast.Call) and (dotted(c.func) or '').endswith('rename_file') for c in ast.walk(n))
+               and any(isinstance(c, ast.Call) and (dotted(c.func) or '').endswith('remove_file') for c in ast.walk(n))]
+    fin_ifs = [n for n in fin_ifs if not any(n is not m and any(n is y for y in ast.walk(m)) for m in fin_ifs)]   # the outermost
+    okd = len(fin_ifs) == 1 and bool(wnd) and bool(heads)
+    if okd:
+        start = wg.nodes_of(fin_ifs[0].body[0])
+        okd = wg.must_pass(start, wnd, heads + [wg.exit], wg.NORMAL) and not (wg.reach(wnd, avoid=heads, labels=wg.NORMAL) & set(wfile))
+    ctx.ob(wf.qualname, 'notify_done(transfer_id) after publish/cleanup on every path', okd, 'done must be signalled only after the file is in place or removed', node=wf.node)
     hs = [h for h in own_nodes(f.node) if isinstance(h, ast.ExceptHandler) and rn and any(field == 'body' and t is h._parent for t, field in q.enclosing_trys(rn[0]))]
     ok = bool(hs) and any((dotted(c.func) or '').endswith('notify_exception') for c in ast.walk(hs[0]) if isinstance(c, ast.Call)) \
         and any(q.in_handler(c) is hs[0] and norm(c.args[0]) == 'temp_filename' for c in rm_h)
